@@ -149,7 +149,7 @@ theorem collect_eq_spec (s : Schema) (frags : List Frag) (vars : Vars) (sat : Li
     (fuel : Nat) (sels : List Sel) (occs : List Spec.Occ) (vis' : List String)
     (h : Spec.occurrences frags vars (appliesOf sat) fuel sels none [] = some (occs, vis'))
     (hag : AgreeOn s (keysOf (oview occs))) :
-    ∃ cfs, Impl.collect s frags vars sat fuel sels [] [] = some (cfs, vis') ∧
+    ∃ cfs, Impl.collect false s frags vars sat fuel sels [] [] = some (cfs, vis') ∧
       cview cfs = cview (Spec.group occs []) := by
   obtain ⟨cfs, h1, h2⟩ := collect_view s frags vars sat fuel sels [] [] none occs vis' h
     (by simpa [cview, keysOf] using hag)
@@ -161,7 +161,7 @@ theorem collected_keys_distinct (s : Schema) (frags : List Frag) (vars : Vars) (
     (fuel : Nat) (sels : List Sel) (occs : List Spec.Occ) (vis' : List String)
     (h : Spec.occurrences frags vars (appliesOf sat) fuel sels none [] = some (occs, vis'))
     (hag : AgreeOn s (keysOf (oview occs))) :
-    ∃ cfs, Impl.collect s frags vars sat fuel sels [] [] = some (cfs, vis') ∧
+    ∃ cfs, Impl.collect false s frags vars sat fuel sels [] [] = some (cfs, vis') ∧
       (cfs.map (·.alias)).Nodup := by
   obtain ⟨cfs, h1, h2⟩ := collect_view s frags vars sat fuel sels [] [] none occs vis' h
     (by simpa [cview, keysOf] using hag)
@@ -181,7 +181,7 @@ theorem collect_dup_witness :
       { name := "A", kind := .interface }, { name := "B", kind := .interface },
       { name := "T", kind := .object, interfaces := ["A", "B"], implementors := ["T", "A", "B"] }] }
     let sels : List Sel := [.inline "A" [] [.field "x" "x" "A" [] []], .inline "B" [] [.field "x" "x" "B" [] []]]
-    (Impl.collect s [] [] ["T", "A", "B"] 10 sels [] []).map (fun r => r.1.map (·.alias)) = some ["x", "x"] ∧
+    (Impl.collect true s [] [] ["T", "A", "B"] 10 sels [] []).map (fun r => r.1.map (·.alias)) = some ["x", "x"] ∧
     (Spec.occurrences [] [] (appliesOf ["T", "A", "B"]) 10 sels none []).map
       (fun r => (Spec.group r.1 []).map (·.alias)) = some ["x"] := by
   decide
